@@ -854,7 +854,7 @@ theorem recv_conns (s : Server) (src : Nat) (p : Payload) :
     split <;> exact ⟨Nat.le_refl _, fun c h => Or.inl h⟩
 
 /-- A non-`recv` event keeps the id counter, and keeps the table or (a re-install that goes through) empties it. -/
-theorem apply_conns_nonrecv' (s : Server) (e : SrvEv) (h : ∀ src p, e ≠ .recv src p) :
+theorem apply_conns_keep_or_empty (s : Server) (e : SrvEv) (h : ∀ src p, e ≠ .recv src p) :
     (e.apply s).nextId = s.nextId ∧ ((e.apply s).conns = s.conns ∨ (e.apply s).conns = []) := by
   by_cases h' : ∃ cfg, e = .reinstall cfg
   · obtain ⟨cfg, rfl⟩ := h'
@@ -882,7 +882,7 @@ theorem C17_table_grows_only_by_authorised_connect (s : Server) (e : SrvEv) :
       subst hceq hp
       have := (C17_canAct_iff s).mp hca
       exact ⟨rfl, pw, rfl, hpw, this.1, this.2, hlen⟩
-  · rcases (apply_conns_nonrecv' s e (fun src p h => hr ⟨src, p, h⟩)).2 with h | h
+  · rcases (apply_conns_keep_or_empty s e (fun src p h => hr ⟨src, p, h⟩)).2 with h | h
     · rw [h] at hc; exact Or.inl hc
     · rw [h] at hc; cases hc
 
@@ -892,7 +892,7 @@ def Server.WF (s : Server) : Prop := (∀ c ∈ s.conns, c.id < s.nextId) ∧ (s
 theorem apply_nextId_mono (s : Server) (e : SrvEv) : s.nextId ≤ (e.apply s).nextId := by
   by_cases hr : ∃ src p, e = .recv src p
   · obtain ⟨src, p, rfl⟩ := hr; exact (recv_conns s src p).1
-  · rw [(apply_conns_nonrecv' s e (fun src p h => hr ⟨src, p, h⟩)).1]; exact Nat.le_refl _
+  · rw [(apply_conns_keep_or_empty s e (fun src p h => hr ⟨src, p, h⟩)).1]; exact Nat.le_refl _
 
 theorem apply_WF (s : Server) (e : SrvEv) (h : s.WF) : (e.apply s).WF := by
   by_cases hr : ∃ src p, e = .recv src p
@@ -937,7 +937,7 @@ theorem apply_WF (s : Server) (e : SrvEv) (h : s.WF) : (e.apply s).WF := by
       | junk k =>
         simp only [SrvEv.apply, Server.receive]
         split <;> exact h.2
-  · have := apply_conns_nonrecv' s e (fun src p h => hr ⟨src, p, h⟩)
+  · have := apply_conns_keep_or_empty s e (fun src p h => hr ⟨src, p, h⟩)
     rcases this.2 with hk | hk
     · exact ⟨by rw [hk, this.1]; exact h.1, by rw [hk]; exact h.2⟩
     · refine ⟨?_, ?_⟩
